@@ -15,7 +15,7 @@ func init() { register("C08", checkC08) }
 
 func checkC08(r *Run) propMeta {
 	meta := propMeta{Level: "other",
-		Explanation: "Decides the structural part of parser totality: (R1) visitor-stack typestate — for every visitor type and grammar rule, the pushes of EnterOC_R and the pops of ExitOC_R balance, with matching asserted types, under every truth assignment of the presence predicates that guard them (so Context.Exit's depth panic, an index out of range on the visitor stack, and a failed type assertion on the popped visitor are impossible); (R2) the root visitor is pushed before the walk; (R3) every parse tree without a rejected rule passes a rule at which the root visitor assigns its result (no (nil, nil)); (R4) a failed strconv/ParseOperator conversion records an error on that path and its value is not used; (R5) explicit panics and unchecked type assertions in the frontend are enumerated against a table of sites whose protecting invariant was confirmed by reading; (R6) blank input is rejected before the lexer is constructed. NOT decided: time and memory bounds of ANTLR's ALL(*) prediction, panics inside the ANTLR runtime.",
+		Explanation: "Decides the structural part of parser totality: (R1) visitor-stack typestate — for every visitor type and grammar rule, the pushes of EnterOC_R and the pops of ExitOC_R balance, with matching asserted types, under every truth assignment of the presence predicates that guard them (so Context.Exit's depth panic, an index out of range on the visitor stack, and a failed type assertion on the popped visitor are impossible); (R2) the root visitor is pushed before the walk; (R3) every parse tree without a rejected rule passes a rule at which the root visitor assigns its result (no (nil, nil)); (R4) a failed strconv/ParseOperator conversion records an error on that path and its value is not used; (R5) explicit panics and unchecked type assertions in the frontend are enumerated against a table of sites whose protecting invariant was confirmed by reading; (R6) blank input is rejected before the lexer is constructed; (R7) the lexer and the parser both get the Context as their ANTLR error listener by unconditional statements before anything pulls a token, and the listener callback records a non-nil error on every call (ANTLR recovers from lexical and syntactic errors, so an unreported error means the input is accepted). NOT decided: time and memory bounds of ANTLR's ALL(*) prediction, panics inside the ANTLR runtime.",
 		Assumptions: []string{"ANTLR walker contract; Enter/Exit handlers of one rule node see the same, completed rule context", "ANTLR runtime does not panic on its own"},
 		TrustedBase: []string{"go/types", "this analyser"}}
 	if err := r.Load("./cypher/..."); err != nil {
@@ -84,6 +84,9 @@ func checkC08(r *Run) propMeta {
 
 	// ---- R6 empty input guard ----------------------------------------------------------------
 	checkEmptyGuard(r, vm)
+
+	// ---- R7 error listeners -------------------------------------------------------------------
+	checkErrorListeners(r, vm)
 	return meta
 }
 
@@ -615,4 +618,192 @@ func checkEmptyGuard(r *Run, vm *VisitorModel) {
 	} else {
 		r.Fail("C08-R6-empty-input", "ParseCypher", pcx.Pos(), "%d of %d calls to parseCypher are not guarded by the blank-input rejection", calls-guarded, calls)
 	}
+}
+
+// checkErrorListeners (R7): ANTLR reports lexical and syntactic errors only to registered listeners, and recovers
+// (drops the offending characters, deletes or conjures a token) so that the walk still produces a model.  Input that
+// is not Cypher is therefore rejected only if (a) the lexer and the parser both have the Context installed as their
+// error listener before anything pulls a token from them, and (b) the listener records an error on every call.
+func checkErrorListeners(r *Run, vm *VisitorModel) {
+	const rule = "C08-R7-error-listener"
+	info := vm.pkg.TypesInfo
+	decls := FuncDecls(vm.pkg)
+	pc := decls["parseCypher"]
+	if pc == nil {
+		r.Fatal("parseCypher not found")
+	}
+	// the recognisers: locals initialised by parser.NewCypherLexer / parser.NewCypherParser; derived streams
+	type recog struct {
+		obj   types.Object
+		kind  string
+		added token.Pos // position of the unconditional X.AddErrorListener(ctx)
+	}
+	var recs []*recog
+	derived := map[types.Object]string{} // token stream etc. -> what it wraps
+	var ctxParam types.Object
+	if pc.Type.Params != nil {
+		for _, f := range pc.Type.Params.List {
+			for _, n := range f.Names {
+				if namedName(info.TypeOf(f.Type)) == "Context" {
+					ctxParam = info.Defs[n]
+				}
+			}
+		}
+	}
+	ast.Inspect(pc.Body, func(n ast.Node) bool {
+		spec, ok := n.(*ast.ValueSpec)
+		if !ok {
+			return true
+		}
+		for i, name := range spec.Names {
+			if i >= len(spec.Values) {
+				continue
+			}
+			call, ok := ast.Unparen(spec.Values[i]).(*ast.CallExpr)
+			if !ok {
+				continue
+			}
+			fn := calleeOf(info, call)
+			if fn == nil {
+				continue
+			}
+			switch fn.Name() {
+			case "NewCypherLexer":
+				recs = append(recs, &recog{obj: info.Defs[name], kind: "lexer"})
+			case "NewCypherParser":
+				recs = append(recs, &recog{obj: info.Defs[name], kind: "parser"})
+			default:
+				for _, a := range call.Args {
+					if id, ok := ast.Unparen(a).(*ast.Ident); ok {
+						for _, rc := range recs {
+							if info.Uses[id] == rc.obj {
+								derived[info.Defs[name]] = rc.kind
+							}
+						}
+					}
+				}
+			}
+		}
+		return true
+	})
+	if len(recs) != 2 || ctxParam == nil {
+		r.Undecide("C08-R7: expected one lexer and one parser local and a *Context parameter in parseCypher, found %d recognisers", len(recs))
+		return
+	}
+	// unconditional top-level statements X.RemoveErrorListeners(); X.AddErrorListener(ctx)
+	for _, st := range pc.Body.List {
+		es, ok := st.(*ast.ExprStmt)
+		if !ok {
+			continue
+		}
+		call, ok := es.X.(*ast.CallExpr)
+		if !ok {
+			continue
+		}
+		sel, ok := call.Fun.(*ast.SelectorExpr)
+		if !ok || sel.Sel.Name != "AddErrorListener" || len(call.Args) != 1 {
+			continue
+		}
+		recv, ok := ast.Unparen(sel.X).(*ast.Ident)
+		arg, ok2 := ast.Unparen(call.Args[0]).(*ast.Ident)
+		if !ok || !ok2 || info.Uses[arg] != ctxParam {
+			continue
+		}
+		for _, rc := range recs {
+			if info.Uses[recv] == rc.obj && rc.added == token.NoPos {
+				rc.added = call.Pos()
+			}
+		}
+	}
+	for _, rc := range recs {
+		construct := "parseCypher:" + rc.kind
+		if rc.added == token.NoPos {
+			r.Fail(rule, construct, pc.Pos(), "the %s never gets the Context as its error listener by an unconditional statement of parseCypher: its errors go to the console listener and the input is accepted after ANTLR's recovery", rc.kind)
+			continue
+		}
+		// nothing may use the recogniser (or a stream built on it) before the listener is installed, except constructors
+		// and the listener calls themselves
+		var early ast.Node
+		ast.Inspect(pc.Body, func(n ast.Node) bool {
+			call, ok := n.(*ast.CallExpr)
+			if !ok || call.Pos() >= rc.added || early != nil {
+				return true
+			}
+			name := ""
+			switch f := ast.Unparen(call.Fun).(type) {
+			case *ast.SelectorExpr:
+				name = f.Sel.Name
+			case *ast.Ident:
+				name = f.Name
+			}
+			if strings.HasPrefix(name, "New") || name == "RemoveErrorListeners" || name == "AddErrorListener" {
+				return true
+			}
+			uses := false
+			check := func(e ast.Expr) {
+				if id, ok := ast.Unparen(e).(*ast.Ident); ok {
+					if o := info.Uses[id]; o != nil && (o == rc.obj || derived[o] == rc.kind || (rc.kind == "lexer" && derived[o] != "")) {
+						uses = true
+					}
+				}
+			}
+			if sel, ok := ast.Unparen(call.Fun).(*ast.SelectorExpr); ok {
+				check(sel.X)
+			}
+			for _, a := range call.Args {
+				check(a)
+			}
+			if uses {
+				early = call
+			}
+			return true
+		})
+		if early != nil {
+			r.Fail(rule, construct, early.Pos(), "%s uses the %s (or a stream built on it) before the Context is installed as its error listener: errors raised by that call are reported to the console listener only and never reach ctx.Errors", exprString(r.Fset, early), rc.kind)
+		} else {
+			r.Pass(rule, construct, rc.added, "the Context is installed as the %s's error listener by an unconditional statement, before anything pulls tokens", rc.kind)
+		}
+	}
+	// the listener records on every call
+	var listener *ast.FuncDecl
+	for name, fd := range decls {
+		if name == "Context.SyntaxError" || name == "(*Context).SyntaxError" || strings.HasSuffix(name, "Context.SyntaxError") {
+			listener = fd
+		}
+	}
+	if listener == nil {
+		r.Undecide("C08-R7: Context.SyntaxError not found")
+		return
+	}
+	records := false
+	var firstReturn token.Pos
+	ast.Inspect(listener.Body, func(n ast.Node) bool {
+		if ret, ok := n.(*ast.ReturnStmt); ok && firstReturn == token.NoPos {
+			firstReturn = ret.Pos()
+		}
+		return true
+	})
+	for _, st := range listener.Body.List {
+		es, ok := st.(*ast.ExprStmt)
+		if !ok {
+			continue
+		}
+		call, ok := es.X.(*ast.CallExpr)
+		if !ok {
+			continue
+		}
+		if fn := calleeOf(info, call); fn != nil && fn.Name() == "AddErrors" && len(call.Args) >= 1 {
+			if u, ok := ast.Unparen(call.Args[0]).(*ast.UnaryExpr); ok && u.Op == token.AND {
+				if _, isLit := u.X.(*ast.CompositeLit); isLit && (firstReturn == token.NoPos || firstReturn > call.Pos()) {
+					records = true
+				}
+			}
+		}
+	}
+	if records {
+		r.Pass(rule, "Context.SyntaxError", listener.Pos(), "the listener callback adds a non-nil error by an unconditional statement")
+	} else {
+		r.Fail(rule, "Context.SyntaxError", listener.Pos(), "the ANTLR error listener does not record an error on every call (the AddErrors(&SyntaxError{…}) statement is missing, conditional, or preceded by a return): the lexer reports unrecognised characters with a nil offending symbol and skips them, so such input is accepted with the characters silently removed")
+	}
+	r.Floor(rule, 3)
 }
